@@ -96,6 +96,8 @@ func (w *World) can(tr string) bool {
 		return false
 	}
 	switch f[0] {
+	case "vote":
+		return !r.sentExt0 && r.cfg.Ext
 	case "haveall", "havenone", "allowfast":
 		return r.cfg.Fast
 	case "donthave":
